@@ -22,7 +22,7 @@ PROP = 'C04'
 THEOREMS = ['Lessm.Expr.C04_table', 'Lessm.Expr.C04_prodprec', 'Lessm.Expr.C04_parse', 'Lessm.Expr.C04_parse_paren',
             'Lessm.Expr.C04_eval', 'Lessm.Expr.C04_eval_zero', 'Lessm.Expr.C04']
 LVL = {'+': 1, '-': 1, '*': 2, '/': 2}
-NUM_RE = re.compile(r'^(-?(?:\d+\.?\d*|\.\d+))([a-z%]*)$')
+NUM_RE = re.compile(r'^(-?(?:\d+\.?\d*|\.\d+)(?:e[-+]?\d+)?)([a-z%]*)$')
 
 
 def dec(s):
@@ -70,10 +70,13 @@ def ok_tree(e, top=True):
         return False      # known finding C04-negvar: -@v with a negative value prints '--'
     if k == 'neg':
         x = e[1]
-        while x[0] == 'p':
+        negs = 0
+        while x[0] in ('p', 'neg'):
+            if x[0] == 'neg':
+                negs += 1
             x = x[1]
-        if x[0] == 'v' and (x[3] or x[1].startswith('-')):
-            return False  # same finding: -(-@v), -(@v) with negative value (parsed as a negated variable)
+        if x[0] == 'v' and (negs or x[3] or x[1].startswith('-')):
+            return False  # same finding: -(-@v), -(-(@v)), -(@v) with negative value (parsed as a negated variable)
     if k in ('p', 'neg'):
         return ok_tree(e[1], False)
     if k == 'b':
@@ -266,9 +269,10 @@ def run(tier):
             tol = Fraction(1, 10 ** 9) * max(abs(want_v), maxmag(t) * Fraction(1, 1000))
             if abs(gv - want_v) > tol:
                 bad = 'value'
-            elif gu != want_u:
+            elif gu != want_u and not (want_v == 0 and gv != 0 and gu == unit(t)):
+                # (an exactly-zero total that the double computation misses by rounding noise keeps its unit)
                 bad = 'unit'
-            elif re.search(r'\.0*$', m.group(1)):
+            elif re.search(r'\.0*$', m.group(1).split('e')[0]) and 'e' not in m.group(1):
                 bad = 'integral result printed with a fractional part'
         if bad:
             chk.violation({'kind': 'arith', 'why': bad, 'source': rend(0, None) if False else rend(i, None), 'expression': texts[i][0],
